@@ -8,32 +8,39 @@ node leaves / re-enters the peers table, the application asks for a node-list re
 Every transition runs the real Cluster / Session / ControlConnection / HostConnection /
 _HostReconnectionHandler code over the virtual server, executor and scheduler.
 
-Engine S: Cluster.on_up racing Cluster.on_down (and a second on_up) for the same host on separate
-virtual threads, every source line of the state-change handlers a scheduling point.
+Engine S: two or three executor workers start with on_up / on_down / a due reconnection attempt /
+remove_host for the same host (SCENARIOS) and then drain the executor; every source line of the
+state-change handlers is a scheduling point; all executions within the preemption bound are judged
+by the same oracle once everything has run.
 """
 import gc
 
 from vt import explore, sched
 from vt import c25lib          # noqa: F401  imported here so that forked workers inherit the loaded driver
-from vt.core import Part
+from vt.core import HarnessError, Part
 
 META = {
     'level': 'model_checking',
     'engine': 'E+S',
     'technique': 'explicit-state BFS over host-event histories on the real Cluster/Session/ControlConnection with canonical-state '
-                 'dedup, plus preemption-bounded schedule enumeration of on_up racing on_down',
-    'text': 'All histories up to the depth bound, for 2-3 hosts, one session, one registered listener and one recording '
-            'load-balancing policy, of: pool connection failure, node refusing/accepting/auth-rejecting new connections, '
-            'STATUS UP/DOWN and TOPOLOGY NEW_NODE/REMOVED_NODE events, peers-table membership change, node-list refresh, '
-            'run next executor task (window 2) / run executor dry, fire earliest scheduled task.  Whenever the executor is '
-            'idle: a member host that is down and not ignored has exactly one un-cancelled scheduled reconnection handler and '
-            'it is Host._reconnection_handler; a removed host has none; an up host has none and has a live pool in the '
-            'session; the notifications seen by the listener and by the policy never repeat (up,up / down,down / add,add / '
-            'remove,remove) and agree with Host.is_up and metadata membership.  Schedule layer: all executions with at most '
-            'the stated number of preemptions of on_up || on_down (|| on_up) for one host, judged after the executor ran dry.',
-    'note': 'Handlers are atomic in the history layer; intra-handler preemption only in the schedule layer (line '
-            'granularity).  Host 10.0.0.1 carries the control connection and is never a target.  Virtual scheduler keeps '
-            'the uniqueness rule of cluster._Scheduler; the real _Scheduler thread is not run.',
+                 'dedup, plus preemption-bounded schedule enumeration of on_up / on_down / remove_host racing for one host',
+    'text': 'History layer: all histories up to the depth and environment-event bounds, for 2-3 hosts, one session, one '
+            'registered listener and one recording load-balancing policy, of: a pool connection dies and the pool reports it; '
+            'the node refuses / accepts / rejects the credentials of new connections; STATUS_CHANGE UP / DOWN; the node leaves '
+            'or (re)joins the ring with or without its TOPOLOGY_CHANGE event, repeated events; application node-list refresh; '
+            'run the next executor task (window 1-2) / run the executor dry; fire the earliest scheduled task.  Whenever the '
+            'executor is idle: a member host that is down and not ignored has exactly one un-cancelled scheduled reconnection '
+            'handler and it is Host._reconnection_handler; a Host instance that left the metadata has none and no open pool; '
+            'an up host has none and has a live pool in the session; what the listener and the policy were told never '
+            'repeats (up,up / down,down / add,add / same instance removed twice / up or add after remove) and agrees with '
+            'Host.is_up and metadata membership.  Schedule layer: 2-3 executor workers start with on_up / on_down / a due '
+            'reconnection attempt / remove_host for the same host and then drain the executor; every source line of the '
+            'state-change handlers is a scheduling point; all executions within the preemption bound are judged by the same '
+            'oracle after the executor ran dry.',
+    'note': 'Handlers are atomic in the history layer; intra-handler preemption only in the schedule layer (line granularity, '
+            'instantaneous network).  Host 10.0.0.1 carries the control connection and is never a target.  A reconnection series '
+            'ended by AuthenticationFailed (documented stop condition) is not counted as a missing reconnector.  The virtual '
+            'scheduler keeps the uniqueness rule of cluster._Scheduler; the real _Scheduler thread is not run.',
     'design_ref': 'C25',
 }
 
@@ -174,7 +181,12 @@ class H(explore.Harness):
                           pc, st.mode[a], a in st.gone,
                           (lv[a].member, lv[a].status, tuple(lv[a].dups), len(lv[a].removed), st.oid(h) in lv[a].removed),
                           (pv[a].member, pv[a].status, tuple(pv[a].dups), len(pv[a].removed), st.oid(h) in pv[a].removed),
-                          h in st.lbp._live))
+                          h in st.lbp._live,
+                          # instances of this address that are no longer (or not) the one in the metadata: queued work
+                          # may still refer to them
+                          tuple((o.is_up, o._currently_handling_node_up,
+                                 None if o._reconnection_handler is None else o._reconnection_handler._cancelled)
+                                for o in st.oid.objs if o is not h and o.endpoint == h.endpoint)))
         cc = st.cluster.control_connection
         now = st.w.clock.now
         est = tuple(sorted((k, round(v - now, 4) if v >= now else -1) for k, v in cc._event_schedule_times.items()))
@@ -208,7 +220,7 @@ class H(explore.Harness):
             part.mark_nontrivial(repr(self.canon(st)))
 
 
-def judge(st, params, part, data, when):
+def judge(st, params, part, data, when, fp='C25/'):
     """The C25 oracle.  Judged only when the executor is idle (the statement is about the state after each
     change has been processed, not about the inside of a handler).  Returns the number of down hosts that
     have exactly one live reconnector (evidence)."""
@@ -229,8 +241,10 @@ def judge(st, params, part, data, when):
             mine = [(x, wh) for x, wh in live if x.host is h and member]
             stale = [(x, wh) for x, wh in live if not (x.host is h and member)]
             where = 'host %s %s' % (a, when)
+            # findings about a Host instance that was added during the history are filed separately
+            sfx = '/added-host' if st.added_later(h) else ''
             if stale:
-                part.violation('C25/reconnector/removed-host-still-reconnecting',
+                part.violation(fp + 'reconnector/removed-host-still-reconnecting' + sfx,
                                '%s: %d un-cancelled reconnection handler(s) for a Host that is no longer in the '
                                'metadata' % (where, len(stale)), data)
             if member and h.is_up is False and a not in ignored:
@@ -241,54 +255,54 @@ def judge(st, params, part, data, when):
                 elif len(mine) == 0:
                     why = 'no handler' if rh is None else \
                         ('Host._reconnection_handler is set (cancelled=%s) but nothing is scheduled' % rh._cancelled)
-                    part.violation('C25/reconnector/down-host-without-reconnector',
+                    part.violation(fp + 'reconnector/down-host-without-reconnector' + sfx,
                                    '%s: is_up=False, not ignored, and no un-cancelled reconnection attempt is '
                                    'scheduled (%s)' % (where, why), data)
                 elif len(mine) > 1:
-                    part.violation('C25/reconnector/two-for-down-host',
+                    part.violation(fp + 'reconnector/two-for-down-host' + sfx,
                                    '%s: %d un-cancelled reconnection handlers are scheduled' % (where, len(mine)), data)
                 else:
                     nlive_down += 1
                     if h._reconnection_handler is not mine[0][0]:
-                        part.violation('C25/reconnector/current-handler-is-not-the-scheduled-one',
+                        part.violation(fp + 'reconnector/current-handler-is-not-the-scheduled-one' + sfx,
                                        '%s: the scheduled un-cancelled handler is not Host._reconnection_handler (%r), '
                                        'so a later on_up/on_remove cannot cancel it' % (where, h._reconnection_handler), data)
             if not member:
                 pool = session._pools.get(h)
                 if pool is not None and not pool.is_shutdown:
-                    part.violation('C25/pool/removed-host-has-pool',
+                    part.violation(fp + 'pool/removed-host-has-pool' + sfx,
                                    '%s: the host left the metadata, the executor is idle and the session still has '
                                    'an open pool for it (is_up=%r)' % (where, h.is_up), data)
             if member and h.is_up is True:
                 if mine:
-                    part.violation('C25/reconnector/live-for-up-host',
+                    part.violation(fp + 'reconnector/live-for-up-host' + sfx,
                                    '%s: is_up=True but %d un-cancelled reconnection handler(s) still scheduled'
                                    % (where, len(mine)), data)
                 if a not in ignored:
                     pool = session._pools.get(h)
                     if pool is None or pool.is_shutdown:
-                        part.violation('C25/pool/up-host-without-pool',
+                        part.violation(fp + 'pool/up-host-without-pool' + sfx,
                                        '%s: is_up=True, not ignored, executor idle, and the session has %s'
                                        % (where, 'no pool' if pool is None else 'only a shut-down pool'), data)
             for who, vs in (('listener', lv), ('policy', pv)):
                 v = vs[a]
                 for d in v.dups:
-                    part.violation('C25/notify/%s/%s' % (who, d),
+                    part.violation(fp + 'notify/%s/%s' % (who, d) + sfx,
                                    '%s: %s notifications show %s (log of (kind, is_up, Host instance): %r)'
                                    % (where, who, d, [(e[0], e[2], 'obj%s' % e[3]) for e in (st.llog if who == 'listener' else st.plog) if e[1] == a]), data)
                 if member and h.is_up is True and v.status == 'down':
-                    part.violation('C25/notify/%s/up-not-notified' % who,
+                    part.violation(fp + 'notify/%s/up-not-notified' % who + sfx,
                                    '%s: is_up=True but the last thing the %s heard is on_down' % (where, who), data)
                 if member and h.is_up is False and v.status == 'up':
                     # (unknown -> down with nobody told is tolerated: the observer never heard it was up)
-                    part.violation('C25/notify/%s/down-not-notified' % who,
+                    part.violation(fp + 'notify/%s/down-not-notified' % who + sfx,
                                    '%s: is_up=False but the last thing the %s heard is that it is up'
                                    % (where, who), data)
                 if not member and v.member:
-                    part.violation('C25/notify/%s/remove-not-notified' % who,
+                    part.violation(fp + 'notify/%s/remove-not-notified' % who + sfx,
                                    '%s: host left the metadata but the %s was not told on_remove' % (where, who), data)
                 if member and h.is_up is True and not v.member:
-                    part.violation('C25/notify/%s/add-not-notified' % who,
+                    part.violation(fp + 'notify/%s/add-not-notified' % who + sfx,
                                    '%s: host is in the metadata and up but the %s was never told on_add' % (where, who), data)
     return nlive_down
 
@@ -316,6 +330,12 @@ SCENARIOS = {
     'reconnect-vs-up': ([('fail', T), ('drain',), ('fire',)], ['task', 'on_up']),
     # the host is down, the due reconnection attempt runs while a pool-creation failure reports it down again
     'reconnect-vs-down': ([('fail', T), ('drain',), ('fire',)], ['task', 'on_down_expected']),
+    # the host is down, the due reconnection attempt runs while a STATUS DOWN event's on_down runs
+    'reconnect-vs-statusdown': ([('fail', T), ('drain',), ('fire',)], ['task', 'on_down']),
+    # the host is down, a reconnection attempt got through and on_up() queued the pool creation, then the node
+    # refuses again: the failing pool creation (its report to on_down, the clean-up of on_up) runs on one worker
+    # while a second worker takes whatever gets queued (the on_down it submits)
+    'failed-up-vs-down': ([('fail', T), ('drain',), ('fire',), ('task', 0), ('mode', T, 'down')], ['task', 'worker']),
     # the host is down with a due reconnection attempt while it is removed from the ring
     'reconnect-vs-remove': ([('fail', T), ('drain',), ('fire',)], ['task', 'remove']),
     # the host is up and fails while it is removed from the ring
@@ -325,22 +345,57 @@ SCENARIOS = {
 }
 
 
+def _group(clause):
+    """coarse class of an oracle clause, for the fingerprints of the schedule layer"""
+    clause = clause.replace('/added-host', '')
+    if clause == 'reconnector/down-host-without-reconnector':
+        return 'host-stays-down'
+    if clause in ('reconnector/removed-host-still-reconnecting', 'pool/removed-host-has-pool') or clause.endswith('-after-remove'):
+        return 'removed-host-revived'
+    if clause.startswith('reconnector/'):
+        return 'extra-reconnector'
+    if clause.startswith('notify/'):
+        return 'notifications'
+    return clause.replace('/', '-')
+
+
+class _InlineOutbox(object):
+    def append(self, item):
+        conn, data = item
+        conn.feed(data)
+
+    def __len__(self):
+        return 0
+
+
 @sched.gc_quiet
 def s_harness(params, prefix, part):
     """Two or three executor workers each start with one state-change call for the same host and then
-    keep taking queued tasks until the queue is empty; a reactor thread delivers the server's answers.
+    keep taking queued tasks until the queue is empty; the server's answers arrive instantly.
     Judged with the same oracle as the history layer once everything has run."""
     import cassandra.cluster as cl
     h = H(params)
     st = h.init()
     try:
-        setup, calls = SCENARIOS[params['scenario']]
+        # the scenario is the first (free) data choice of the execution, so that one exploration - one worker pool -
+        # covers a whole group of scenarios
+        group = params['scenarios']
+        k = prefix[0] if prefix and len(group) > 1 else 0
+        if not 0 <= k < len(group):
+            raise HarnessError('scenario choice %r out of range' % (k,))
+        scenario, gone = group[k]
+        setup, calls = SCENARIOS[scenario]
         for ev in setup:
             h.apply(st, tuple(ev))
-        if params.get('gone'):
+        if gone:
             st.gone.add(T)
         w, cluster, host = st.w, st.cluster, st.host(T)
+        # the network is instantaneous in this layer: the server's answer is fed back inside push(), so a
+        # handshake or a control-connection query never blocks (no reactor thread, no free switches at waits)
+        st.server.outbox = _InlineOutbox()
         s = sched.Scheduler(prefix, focus=_focus(), horizon=20000, clock=w.clock)
+        if s.choose(len(group), 'scenario') != k:
+            raise HarnessError('scenario choice is not the first choice point')
         done = {'n': 0}
         first = w.tasks[0] if w.tasks else None
         if first is not None:
@@ -355,15 +410,24 @@ def s_harness(params, prefix, part):
                 cl.Cluster.on_down.__wrapped__(cluster, host, False, expect_host_to_be_down=True)
             elif kind == 'remove':
                 cluster.remove_host(host)
+            elif kind == 'worker':
+                pass
             elif kind == 'task':
                 fut, fn, args, kwargs, label, ex = first
                 if st._handler_of(fn) is not None:
                     st.stats['reconnect_ok'] += 1
-                fn(*args, **kwargs)
+                try:                                  # what an executor worker does with a task
+                    r = fn(*args, **kwargs)
+                except Exception as e:
+                    fut.set_exception(e)
+                else:
+                    fut.set_result(r)
 
         def worker(kind):
             def body():
                 try:
+                    if kind == 'worker':
+                        s.block(lambda: bool(w.tasks) or done['n'] >= len(calls) - 1, None, 'idle worker')
                     call(kind)
                     while w.tasks:
                         w.run_task(0)
@@ -371,32 +435,29 @@ def s_harness(params, prefix, part):
                     done['n'] += 1
             return body
 
-        def reactor():
-            while True:
-                s.block(lambda: bool(st.server.outbox) or done['n'] >= len(calls), None, 'reactor idle')
-                if st.server.outbox:
-                    w.deliver_outbox(1)
-                else:
-                    break
-
         for i, kind in enumerate(calls):
             s.spawn(worker(kind), 'w%d:%s' % (i, kind))
-        s.spawn(reactor, 'reactor')
         s.run()
         data = {'engine': 'S', 'params': params, 'prefix': s.choices()}
-        cls = params['scenario']
+        cls = scenario + ('-gone' if gone else '')
         if s.failure:
-            part.violation('C25/sched/%s/%s' % (s.failure[0], cls), s.failure[1], data)
+            part.violation('C25/race/%s/%s' % (cls, s.failure[0]), s.failure[1], data)
             return s
         for t in s.threads:
             if t.exc is not None:
-                part.violation('C25/sched/thread-exception/%s/%s' % (type(t.exc).__name__, cls),
+                part.violation('C25/race/%s/thread-exception/%s' % (cls, type(t.exc).__name__),
                                '%r in %s\n%s' % (t.exc, t.name, getattr(t, 'exc_tb', '')), data)
                 return s
         # whatever is left (nothing should be) runs now, single-threaded
         st.drain()
         st.refresh_hosts()
-        nlive = judge(st, params, part, data, 'after the race %s' % cls)
+        p2 = Part()
+        nlive = judge(st, params, p2, data, 'after the race %s' % cls, fp='')
+        for k, v in p2.counters.items():
+            if k != 'violating_cases':
+                part.count(k, v)
+        for fp, what, d in p2.violations:
+            part.violation('C25/race/%s/%s' % (cls, _group(fp)), '[%s] %s' % (fp, what), data)
         hh = st.host(T)
         part.outcome((cls, st.in_metadata(T), hh.is_up, nlive, len(st.llog), len(st.plog)))
         if any(p.chosen for p in s.trace if not p.kind.startswith('data')):
@@ -412,19 +473,19 @@ def configs(ctx):
     t2, t3 = '10.0.0.2', '10.0.0.3'
     q = [
         # one target host: failures, server up/down, status events; deep
-        ('status', dict(hosts=2, targets=[t2], kinds=['fail', 'status'], modes=['up', 'down'], task_window=2), 9, 4),
+        ('status', dict(hosts=2, targets=[t2], kinds=['fail', 'status'], modes=['up', 'down'], task_window=2), 8, 4),
         # topology: removal / re-adding of the target while it is up or down
         ('topology', dict(hosts=3, targets=[t3], kinds=['fail', 'topo', 'member', 'refresh'], modes=['up', 'down'],
                           task_window=2), 8, 4),
         # everything on one target, fewer environment events
         ('mixed', dict(hosts=2, targets=[t2], kinds=['fail', 'status', 'topo', 'member'], modes=['up', 'down'],
-                       task_window=1), 8, 4),
+                       task_window=1), 7, 3),
         # authentication failures stop a reconnection series (documented); what happens around it
         ('auth', dict(hosts=2, targets=[t2], kinds=['fail', 'status'], modes=['up', 'auth'], task_window=1), 8, 4),
         # an ignored host: no pools, no reconnector
-        ('ignored', dict(hosts=3, targets=[t3], ignored=[t3], kinds=['status', 'topo', 'member'], modes=[], task_window=1), 7, 4),
+        ('ignored', dict(hosts=3, targets=[t3], ignored=[t3], kinds=['status', 'topo', 'member'], modes=[], task_window=1), 6, 4),
         # two targets
-        ('two', dict(hosts=3, targets=[t2, t3], kinds=['fail', 'status'], modes=['down'], task_window=1), 7, 3),
+        ('two', dict(hosts=3, targets=[t2, t3], kinds=['fail', 'status'], modes=['down'], task_window=1), 6, 3),
     ]
     if ctx.thorough:
         q = [(n, p, d + 2, e + 1) for n, p, d, e in q]
@@ -433,27 +494,48 @@ def configs(ctx):
 
 def run(ctx):
     import os
-    only = os.environ.get('C25_ONLY')
+    only = os.environ.get('C25_ONLY')        # development aid: run a subset of the configurations
+    if only:
+        ctx.cap('C25_ONLY=%s: only a subset of the configurations was run' % only)
     for name, params, depth, dev in configs(ctx):
         if only and name not in only.split(','):
             continue
         explore.bfs(ctx, H, params, max_depth=depth, dev_bound=dev * ENV_COST, label='c25-' + name,
                     max_states=600000 if ctx.thorough else 40000)
-    sbound = 2 if ctx.thorough else 1
-    for name in sorted(SCENARIOS):
-        if only and ('S:' + name) not in only.split(',') and 'S' not in only.split(','):
-            continue
-        for gone in ((False, True) if 'remove' in name else (False,)):
-            sched.explore(ctx, 'c25-S-%s%s' % (name, '-gone' if gone else ''), s_harness,
-                          dict(hosts=2, targets=[T], scenario=name, gone=gone, kinds=[], modes=[]), sbound,
-                          max_executions=60000 if ctx.thorough else 6000)
-    ctx.cov['rule'] = ('state = event history replayed on a fresh real Cluster+Session; invariants judged in every state whose '
-                       'executor queue is empty; non-trivial = distinct canonical state at depth >= 3 in which a host went down, '
-                       'was removed or was added; outcomes = (idle?, #down hosts with one live reconnector, reconnect ok/failed/'
-                       'auth-failed seen, removed, removed while down, added, came up, went down)')
+    # schedule layer.  quick: 2 preemptions for the two races whose lost-update interleavings need two (the completion
+    # of on_up against a second on_up / against a STATUS DOWN), 1 for the others; thorough: 3 for down-vs-up, 2 for the
+    # others.  One exploration per bound (the scenario is the first data choice).
+    deep = ('down-vs-up',) if ctx.thorough else ('reconnect-vs-statusdown', 'reconnect-vs-up')
+    hi, lo = (3, 2) if ctx.thorough else (2, 1)
+    variants = [(name, gone) for name in sorted(SCENARIOS) for gone in ((False, True) if 'remove' in name else (False,))]
+    if only:
+        sel = only.split(',')
+        variants = [v for v in variants if 'S' in sel or ('S:' + v[0]) in sel]
+    for label, bound, group in (('deep', hi, [v for v in variants if v[0] in deep]),
+                                ('wide', lo, [v for v in variants if v[0] not in deep])):
+        if group:
+            sched.explore(ctx, 'c25-S-%s' % label, s_harness,
+                          dict(hosts=2, targets=[T], scenarios=group, kinds=[], modes=[]), bound,
+                          max_executions=600000 if ctx.thorough else 60000)
+            ctx.cov['harnesses']['c25-S-%s' % label]['scenarios'] = ['%s%s' % (n, '-gone' if g else '') for n, g in group]
+    ctx.cov['rule'] = ('history layer: state = event history replayed on a fresh real Cluster+Session; invariants judged in every state '
+                       'whose executor queue is empty; non-trivial = distinct canonical state at depth >= 3 in which a host went '
+                       'down, was removed or was added; outcomes = (idle?, #down hosts with one live reconnector, reconnect ok/'
+                       'failed/auth-failed seen, removed, removed while down, added, came up, went down).  Schedule layer: execution '
+                       '= one schedule within the preemption bound; non-trivial = at least one non-default scheduling choice; '
+                       'outcomes = (scenario, member?, is_up, #live reconnectors, #listener calls, #policy calls)')
     ctx.assume('handlers are atomic with respect to each other in the history layer (single-threaded histories)')
     ctx.assume('the control-connection host 10.0.0.1 never fails and is never removed')
     ctx.assume('scheduled tasks fire in deadline order (what cluster._Scheduler does); executor tasks may overtake by one position')
+    ctx.assume('topology events are truthful about the peers table at the moment they are sent (REMOVED_NODE only for a node '
+               'that is not in it, NEW_NODE only for one that is); STATUS events may be stale')
+    ctx.assume('a reconnection series that ended because the server rejected the credentials (AuthenticationFailed, the documented '
+               'stop condition of _ReconnectionHandler.on_exception) is not counted as a missing reconnector')
+    ctx.assume('unknown -> down (Host.is_up None -> False) without a notification is tolerated when the observer was never told '
+               'the host is up; on_remove for a Host whose on_add had not been delivered yet is tolerated')
+    ctx.assume('the recording policy belongs to exactly one execution profile (the driver\'s default graph profiles wrap the default '
+               'profile\'s policy and would forward every notification to it once more each, by design)')
+    ctx.assume('schedule layer: the server answers instantly (no reactor thread); line-level atomicity of CPython statements')
 
 
 def replay(ctx, data):
